@@ -135,7 +135,10 @@ impl SimpleMdnsResponder {
                                 scope.socket_address()
                             };
 
-                            sender_socket.send_to(&reply, reply_addr)?;
+                            // a reply that cannot be sent (e.g. too large for one datagram) must not end the loop
+                            if let Err(err) = sender_socket.send_to(&reply, reply_addr) {
+                                log::error!("Failed to send reply {err}");
+                            }
                         }
                         None => {
                             continue;
